@@ -371,6 +371,17 @@ def load_exc_hierarchy():
                 EXC_SUB.add((a, b))
 
 
+def dim_subs_method(ex, ctx, base, attr, args, kw):
+    """Dimension.subs("angle", 1) on a modelled dimension (the idiom of assert_equivalent_dimension, wherever a maintainer
+    copies it to); None for anything else"""
+    if z3.is_expr(base) and base.sort() == M.Dim and attr == "subs":
+        if args and args[0] == "angle":
+            assumed("Dimension.subs('angle', 1)", "erases the angle exponent of a dimension and nothing else")
+            return [(ctx, M.d_erase_angle(base))]
+        raise GenError(f"Dimension.subs({args!r})")
+    return None
+
+
 def make_exec(rel_path: str, unit: str, *, globals_extra=None, contracts=None, models=None, loop_specs=None,
               isinstance_model=None, attr_model=None) -> Exec:
     path = PKG / rel_path
